@@ -551,6 +551,16 @@ pub fn range(w: usize, t: usize, a: usize, b: usize, src: &str) -> String {
                         ok = false;
                         why.push_str("spliced text has a different skeleton; ");
                     }
+                    // C10 on the range path: the literals of the spliced text are those of the source
+                    // (no post-processing here, so no F4 tolerance)
+                    if !s2.root().erroneous() {
+                        let la = obs::obs_literals(root);
+                        let lb = obs::obs_literals(s2.root());
+                        f.push(format!("c10r={}", (la == lb) as u8));
+                        if la != lb {
+                            f.push(format!("c10rd={}", hex(&first_diff(&la, &lb))));
+                        }
+                    }
                 }
             } else {
                 ok = false;
